@@ -24,6 +24,10 @@
         the other direction interleave freely);
       - c36_repaired_variant: the full statement on every schedule when savePeer re-checks
         "not yet recorded / not full / per-IP not full" under its own lock (the smallest repair).
+      - c36_check_refuses_at_limit, c36_started_at_limit_never_recorded, c36_at_limit_no_growth:
+        in every reachable state an attempt whose check runs at count >= limit is refused and never
+        recorded, and while the count stays >= limit it cannot exceed its value plus the attempts
+        that had already passed the check (the overshoot is bounded by what was in flight and heals).
     Missing for the full statement: nothing provable - it is refuted. *)
 From Coq Require Import List NArith Arith.
 Import ListNotations.
@@ -91,6 +95,68 @@ Theorem c36_repaired_variant : forall (cf : cfg) (sched : list ev),
   Forall (limits_hold cf) (trace true cf sys_init sched).
 Proof. exact repaired_limits. Qed.
 Print Assumptions c36_repaired_variant.
+
+(** OUTSIDE the finding class: what the pre-handshake check guarantees in EVERY reachable state,
+    whatever happened before (including an overshoot produced by overlapping attempts).
+
+    (a) the check sections refuse whenever the count they read is at or over the limit; *)
+Theorem c36_check_refuses_at_limit : forall (rc : bool) (cf : cfg) (c : ctrl) (t : thread),
+  (limit_of cf (t_dir t) <= bounds_count c (t_dir t) -> exec_op rc cf c t OpFull = (c, Some EBoundFull, None)) /\
+  (max_per_ip cf <= inbound_count_with_ip c (fst (t_addr t)) -> exec_op rc cf c t OpIpCount = (c, Some EIpFull, None)).
+Proof. intros; split; [apply full_check_refuses | apply ip_check_refuses]. Qed.
+Print Assumptions c36_check_refuses_at_limit.
+
+(** (b) for every reachable state s (after any schedule sched1) and every attempt i about to run
+    isBoundFull (resp. the per-IP test) while the recorded count of its direction (resp. of its
+    IP) is >= the limit: the step changes neither the controller nor the established
+    connections, the attempt is Failed EBoundFull/EIpFull after it and after every later event
+    of every continuation sched2 - and a failed call never records anything (second theorem). *)
+Theorem c36_started_at_limit_never_recorded : forall (rc : bool) (cf : cfg) (sched1 sched2 : list ev) (i : nat) (t : thread),
+  let s := run rc cf sched1 in
+  nth_error (s_threads s) i = Some t -> t_out t = Pending ->
+  (   (nth_error (prog_of (t_dir t)) (t_pc t) = Some (IOp OpFull) /\ limit_of cf (t_dir t) <= recorded s (t_dir t))
+   \/ (nth_error (prog_of (t_dir t)) (t_pc t) = Some (IOp OpIpCount) /\ max_per_ip cf <= recorded_ip s (fst (t_addr t)))) ->
+  Forall (fun s' => exists t' e, nth_error (s_threads s') i = Some t' /\ t_out t' = Failed e
+                                 /\ (e = EBoundFull \/ e = EIpFull))
+         (trace rc cf s (Run i :: sched2))
+  /\ s_ctrl (step rc cf s (Run i)) = s_ctrl s /\ s_live (step rc cf s (Run i)) = s_live s.
+Proof. exact started_at_limit_never_recorded. Qed.
+Print Assumptions c36_started_at_limit_never_recorded.
+
+Theorem c36_failed_call_records_nothing : forall (rc : bool) (cf : cfg) (c : ctrl) (t : thread) c' t' k,
+  t_out t <> Pending -> defer_wf t -> run_thread rc cf c t = (c', t', k) ->
+  k = None /\ (forall d, bound c' d = bound c d).
+Proof. exact not_pending_records_nothing. Qed.
+Print Assumptions c36_failed_call_records_nothing.
+
+(** (c) the overshoot heals and cannot grow: from any reachable state s whose recorded count is at
+    or over the limit, for as long as it stays so, the count never exceeds its value at s plus the
+    attempts that had ALREADY passed the check at s (past_full / past_ipcheck: pending, check
+    executed, savePeer ahead). With s the state in which the last slot was taken:
+    count <= limit + in-flight-at-that-time. Over all interleavings, any continuation. *)
+Theorem c36_at_limit_no_growth : forall (rc : bool) (cf : cfg) (sched1 sched2 : list ev),
+  let s := run rc cf sched1 in
+  (forall d, limit_of cf d <= recorded s d ->
+     Forall (fun s' => limit_of cf d <= recorded s' d) (trace rc cf s sched2) ->
+     Forall (fun s' => recorded s' d <= recorded s d + past_full s d) (trace rc cf s sched2)) /\
+  (forall ip, max_per_ip cf <= recorded_ip s ip ->
+     Forall (fun s' => max_per_ip cf <= recorded_ip s' ip) (trace rc cf s sched2) ->
+     Forall (fun s' => recorded_ip s' ip <= recorded_ip s ip + past_ipcheck s ip) (trace rc cf s sched2)).
+Proof.
+  intros rc cf sched1 sched2 s; split.
+  - intros d; exact (at_limit_no_growth rc cf sched1 sched2 d).
+  - intros ip; exact (at_limit_no_growth_ip rc cf sched1 sched2 ip).
+Qed.
+Print Assumptions c36_at_limit_no_growth.
+
+(** non-vacuity of (a)-(c): the inbound witness leaves 2 recorded with limit 1; three further
+    sequential attempts (IPv4, same host as a recorded one, IPv6) are all refused at isBoundFull
+    and the counts stay at 2. *)
+Example c36_over_limit_nonvacuous :
+  recorded (run false w_cfg_in w_sched_in) Inbound = 2 /\
+  map t_out (s_threads (run false w_cfg_in ov_sched)) = [Done; Done; Failed EBoundFull; Failed EBoundFull; Failed EBoundFull] /\
+  recorded (run false w_cfg_in ov_sched) Inbound = 2 /\ live_count (run false w_cfg_in ov_sched) Inbound = 2.
+Proof. exact ov_facts. Qed.
 
 (** The theorems above are about the program and comparison operators found in the source now. *)
 Theorem c36_program_shape : forall d,
